@@ -469,6 +469,16 @@ def vl_rules(ctx):
                                        % (norm_text(st.value), big, dt))
             E = st.targets[0].id
             continue
+        if isinstance(st, (ast.If, ast.While, ast.For, ast.Try)) and \
+                any(isinstance(n, ast.Return) for n in ast.walk(st)):
+            for r_ in [n for n in ast.walk(st) if isinstance(n, ast.Return)]:
+                ctx.ob('VL-BLOCK', False, None, 'every return is (E00, E01 @ E00^T) of the block '
+                       'exponential', f=f, node=r_, key='shortcut-return',
+                       why='compute_process_matrices returns `%s` on a path that bypasses the '
+                           'block matrix exponential: not the exact transition / noise integral '
+                           '(sub-steps do not compose)'
+                           % (norm_text(r_.value)[:80] if r_.value is not None else 'None'))
+            continue
         raise AnalysisError('Van Loan: statement `%s` not understood' % norm_text(st)[:60])
     ctx.need(big is not None and E is not None and ret is not None,
              'Van Loan assembly not recognised')
@@ -545,6 +555,34 @@ def q_psd(ctx):
     ctx.ob('Q-PSD', norm_text(call.args[2]) == f.params[3], None,
            'step passed to the discretisation is the time_delta parameter', f=f, node=call,
            key='dt-param', why='step argument is `%s`' % norm_text(call.args[2]))
+    # every return of the wrapper hands back the result of that one exact discretisation: no
+    # shortcut path with an approximate transition matrix (sub-steps would not compose)
+    bound = set()
+    if isinstance(st, ast.Assign):
+        for t in st.targets:
+            bound |= {x.id for x in ast.walk(t) if isinstance(x, ast.Name)}
+    first_arg = call.args[0]
+    rets = [n for n in ast.walk(f.node) if isinstance(n, ast.Return)]
+    for r in rets:
+        v = r.value
+        okr = v is call or (isinstance(v, ast.Name) and v.id in bound) or (
+            isinstance(v, ast.Tuple) and v.elts and
+            all(isinstance(e, ast.Name) and e.id in bound for e in v.elts))
+        ctx.ob('Q-PSD', okr, None, 'return value is the result of compute_process_matrices', f=f,
+               node=r, key='return-via-%d' % rets.index(r),
+               why='_compute_error_propagation_matrices returns `%s`, which is not the result of '
+                   'kalman.compute_process_matrices: a path that bypasses the exact '
+                   'discretisation (e.g. I + F dt) makes covariance propagation depend on how '
+                   'time is partitioned' % (norm_text(v)[:80] if v is not None else 'None'))
+    # the dynamics matrix handed over is complete: no store into it after the call
+    if isinstance(first_arg, ast.Name):
+        late = [s2 for s2 in ast.walk(f.node) if isinstance(s2, ast.Assign) and
+                isinstance(s2.targets[0], ast.Subscript) and
+                norm_text(s2.targets[0].value) == first_arg.id and s2.lineno > st.lineno]
+        ctx.ob('Q-PSD', not late, None, 'the dynamics matrix is fully assembled before it is '
+               'discretised', f=f, node=(late[0] if late else st), key='assembled',
+               why='`%s` is modified after it was handed to compute_process_matrices'
+                   % first_arg.id)
     # callers: time_delta = time difference of the two averaged states
     fb = ctx.repo.function('filters.run_feedback_filter')
     for n in ast.walk(fb.node):
